@@ -133,11 +133,11 @@ def inject_faults(rng, rows, faults, adjust, ctx_faults=None):
 
 
 def gen_market(rng, n_assets, day0, n_bdays, adjust=True, faults=(), styles=None, low_priced_p=0.2,
-               late_p=0.0, weekend_rows=False, adj_modes=("same", "same", "steps"), jump_p=0.0):
+               late_p=0.0, weekend_rows=False, adj_modes=("same", "same", "steps"), jump_p=0.0, syms=None):
     assets = {}
     applied = {}
     for i in range(n_assets):
-        sym = SYMS[i]
+        sym = (syms or SYMS)[i]
         style = rng.choice(styles or ["ugly", "ugly", "round", "cents"])
         late = 0
         if "late_start" in faults and rng.random() < max(late_p, 0.4) and n_bdays > 2:
